@@ -1,0 +1,21 @@
+//go:build verif
+
+package reflection
+
+// VerifYieldHook, when set, is called at the marked points of the resolver's poller loop and of ResolveNow, so that a
+// verification harness can pause one goroutine there while others run. Only compiled with the "verif" build tag.
+var VerifYieldHook func(point string)
+
+func verifYield(point string) {
+	if h := VerifYieldHook; h != nil {
+		h(point)
+	}
+}
+
+// verifWrapNotify makes a notify function yield between being loaded by ResolveNow and doing its work.
+func verifWrapNotify(f func()) func() {
+	return func() {
+		verifYield("resolver:resolvenow:loaded")
+		f()
+	}
+}
